@@ -16,9 +16,11 @@ from fractions import Fraction
 
 ARITH = ('+', '-', '*', '/')
 CMP = ('<', '>', '<=', '>=', '=', '<>')
-LEVEL = {'<': 1, '>': 1, '<=': 1, '>=': 1, '=': 1, '<>': 1, '+': 2, '-': 2, '*': 3, '/': 3, '&': 5}
-# '&' is given its own level above arithmetic only for rendering '&' chains whose operands are
-# atoms or parenthesised; its position relative to arithmetic is never relied upon (R1).
+LEVEL = {'<': 1, '>': 1, '<=': 1, '>=': 1, '=': 1, '<>': 1, '&': 1.5, '+': 2, '-': 2, '*': 3, '/': 3}
+# The statement lists the levels from the tightest down - unary minus, * /, + -, comparisons - and puts '&' above the
+# comparisons: the only place that leaves the listed order intact is between + - and the comparisons (the usual reading of
+# a sheet: 1+2&3 is "33").  An earlier version of this file treated the rank of '&' against arithmetic as not demanded and
+# always parenthesised the operands of '&'; a red-team reading of the statement showed that to be too lenient.
 
 
 class RefError(Exception):
@@ -45,6 +47,8 @@ def _num(val):
         return val.v
     if val.kind == 'bool':
         return Fraction(1 if val.v else 0)
+    if val.kind == 'text' and val.v.isdigit() and val.v.isascii():
+        return Fraction(int(val.v))        # text that spells a whole number acts as that number (C06)
     raise RefError('#VALUE!')
 
 
@@ -181,15 +185,9 @@ def render_min(t, extra=None, _path=()):
         ls = render_min(t[2], extra, _path + (2,))
         rs = render_min(t[3], extra, _path + (3,))
         ll, rl = _level(t[2]), _level(t[3])
-        if op == '&':
-            # operands of & are atoms or parenthesised (its rank against arithmetic is not relied on)
-            if ll < 9 and not (t[2][0] == 'b' and t[2][1] == '&'):
-                ls = '(%s)' % ls
-            if rl < 9:
-                rs = '(%s)' % rs
-        else:
-            lpar = ll < lv or (ll == 5 and lv > 1)
-            rpar = rl <= lv or (rl == 5 and lv > 1)
+        if True:
+            lpar = ll < lv
+            rpar = rl <= lv
             if lv == 1 and ll == 1:
                 lpar = True     # one comparison per parenthesis-free region
             if t[3][0] == 'u' and lv > 1:
